@@ -184,6 +184,7 @@ class C10(core.Check):
             "E": [f"{a}-{b}:{l}" for a, b, l in eds],
             "C": [f"{i}:{l}" for i, l in cor],
             "n_edges": len(mesh.edge_list.edges),
+            "K": ["+".join(sorted(op.get_patches_at_corner(c))) for c in range(8)],
         }
 
     # ------------------------------------------------------------------ model
@@ -217,7 +218,7 @@ class C10(core.Check):
             return "model rejects, implementation accepts"
         import re
 
-        m = re.fullmatch(r"P\[(.*)\] F\[(.*)\] E\[(.*)\] C\[(.*)\]", ans)
+        m = re.fullmatch(r"P\[(.*)\] F\[(.*)\] E\[(.*)\] C\[(.*)\] K\[(.*)\]", ans)
         if not m:
             return "unparsable model answer " + ans
         got = {k: sorted(x for x in m.group(i + 1).split(";") if x) for i, k in enumerate("PFEC")}
@@ -226,6 +227,9 @@ class C10(core.Check):
                 return f"section {k}: implementation {impl[k]}, model {got[k]}"
         if got["C"] != sorted(impl["C"]):
             return f"corners: implementation {impl['C']}, model {got['C']}"
+        k_model = ["+".join(sorted(x for x in part.split("+") if x)) for part in m.group(5).split(";")]
+        if k_model != impl["K"]:
+            return f"patches at corners: implementation {impl['K']}, model {k_model}"
         return None
 
     # ------------------------------------------------------------------ oracle (property stated on the implementation)
@@ -316,6 +320,16 @@ class C10(core.Check):
         got_e = {frozenset(map(int, x.split(":")[0].split("-"))): set(x.split(":")[1].split("+")) for x in impl["E"]}
         if got_e != exp_e:
             out.append({"site": "Operation.project_edge:wrong-edge", "what": f"{case['calls']} -> {impl['E']}"})
+        for c in range(8):
+            want = sorted({n for s_, n in exp_p.items() if c in BM_SIDE[s_]})
+            if sorted(x for x in impl["K"][c].split("+") if x) != want:
+                out.append(
+                    {
+                        "site": "Operation.get_patches_at_corner:wrong-patches",
+                        "what": f"{case['calls']}: corner {c} reports {impl['K'][c]!r}, the sides through it carry {want}",
+                    }
+                )
+                break
         got_c = {int(x.split(":")[0]): set(x.split(":")[1].split("+")) for x in impl["C"]}
         if got_c != exp_c:
             out.append({"site": "Operation.project_corner:wrong-corner", "what": f"{case['calls']} -> {impl['C']}"})
